@@ -3,6 +3,7 @@
 mod alloc;
 mod conn;
 mod framing;
+mod props;
 mod rng;
 mod tables;
 
@@ -58,6 +59,14 @@ fn main() {
         "conn-pair-replay" => {
             lines.push(conn::replay_pair(&args[2..]));
         }
+        "props-lists" => {
+            let (a, r) = props::gen_lists(seed, n, &mut lines);
+            stats_json = format!("{{\"lists\":{},\"builder_accepts\":{},\"builder_rejects\":{}}}", n, a, r);
+        }
+        "props-replay" => {
+            let nums: Vec<u64> = args[2..].iter().filter_map(|s| s.parse().ok()).collect();
+            lines.push(props::replay_list(&nums));
+        }
         "conn-matrix" => {
             let mut st = conn::c16::CaseStats::new();
             let (cells, unreachable) = conn::c16::gen_matrix(&mut lines, &mut st);
@@ -71,6 +80,7 @@ fn main() {
         "tables" => {
             let dir = arg_val(&args, "--dir").unwrap_or_else(|| "/verif/coq/theories/Generated".to_string());
             tables::write_sendable_v(&format!("{}/ObservedSendable.v", dir));
+            props::write_props_v(&format!("{}/ObservedProps.v", dir));
         }
         "conn-replay" => {
             lines.push(conn::replay(&args[2..]));
